@@ -50,7 +50,7 @@ def run(tier):
             w = model_replay(r["name"], fobj["model"])
             if w is None and r["name"].startswith("driver"):
                 from . import fmt_driver
-                w = fmt_driver.replay_model(r["name"], fobj["model"])
+                w = fmt_driver.replay_model(r["name"], fobj["model"], fobj["desc"])
             if w: rep.violation(r["name"] + ":" + json.dumps(fobj["model"], sort_keys=True)[:150], w + "  [%s]" % fobj["desc"], {"job": r["name"], "model": fobj["model"]})
             else: rep.spurious.append({"job": r["name"], "obligation": fobj["desc"], "model": fobj["model"]})
     rep.bounds = ["printers: every int64 value / every offset in (-86400, 86400) / 0..99 (no bound)", "driver: see coverage.jobs (panel of format strings, symbolic fields)"]
